@@ -417,6 +417,19 @@ func RunE6(env *Env, job *E1Job) *E1Res {
 					res.Diverged = true
 				}
 			}
+			// the cursor the implementation reports must be the reference's (this also keeps state merging honest: a
+			// hidden cursor that differs from the reference becomes visible here instead of in some later call)
+			if !res.Diverged {
+				cur, err := f.Seek(0, io.SeekCurrent)
+				vsync.Quiesce()
+				if err != nil {
+					viol(fmt.Sprintf("C14|cursor-probe-error|after=%s|mode=%s|%s", o.K, wcOf(mode), flagS), fmt.Sprintf("%s\nSeek(0, SeekCurrent): %v", hhist(job), err))
+					res.Diverged = true
+				} else if cur != ref.pos {
+					viol(fmt.Sprintf("C14|cursor|after=%s|mode=%s|%s|%s", o.K, wcOf(mode), flagS, argc), fmt.Sprintf("%s\nthe cursor is at %d (Seek(0, SeekCurrent)), the reference's at %d", hhist(job), cur, ref.pos))
+					res.Diverged = true
+				}
+			}
 			// handle-level Stat after every call
 			if !res.Diverged {
 				fi, err := f.Stat()
